@@ -9,14 +9,17 @@
          b, err := keywrap.Wrap(block, key[:])     // 16 bytes: never an error
          return &KeyEnvelope{KEKLabel: kekLabel, AESKey: b}, nil }
      func (k KeyEnvelope) Unwrap(kek []byte) (AES128Key, error) {
+         if len(k.AESKey) != len(key)+8 { return key, error }   // since the repair C17-3: exactly 24 bytes
          block, err := aes.NewCipher(kek)
          b, err := keywrap.Unwrap(block, k.AESKey[:])   // error iff the recovered IV differs from A6A6A6A6A6A6A6A6
          copy(key[:], b); return key, nil }             // first 16 bytes, zero padded
 
-   keywrap.Unwrap quirks (see KeyEnvelope.v): < 8 bytes panics; 8..15 bytes: error, or panic when
-   the 8 bytes equal the IV; bytes beyond 8 * (len / 8) are ignored.  Unwrap does not look at
-   KEKLabel.  For 16-byte KEKs these functions are the AES-128 instance of KeyEnvelope.v
-   (EnvelopeAnyProofs.envelope_any_128). *)
+   Before the repair (finding C17-3, audit) Unwrap handed AESKey of any length to keywrap.Unwrap:
+   < 8 bytes panicked (make with a negative length), 8..15 bytes panicked when they began with
+   the IV (else error), bytes beyond 8 * (len / 8) were ignored and copy(key[:], b) truncated /
+   zero-padded key data that was not 16 bytes - all of it reachable from a peer's JSON.  That code is
+   kept as [envelope_unwrap_any_orig] (for 16-byte KEKs it is KeyEnvelope.envelope_unwrap), with
+   witnesses in EnvelopeAnyProofs.unwrap_orig_refuted.  Unwrap does not look at KEKLabel.  *)
 From Coq Require Import List NArith Bool.
 From LW Require Import Base.Outcome Base.Bytes Crypto.AES Crypto.AESAny Crypto.KeyWrap Crypto.KeyWrapAny
   Backend.KeyEnvelope.
@@ -31,7 +34,8 @@ Definition new_key_envelope_any (label kek key : list N) : outcome (list N * lis
        | None => Err                       (* aes.NewCipher: invalid key size *)
        end.
 
-Definition envelope_unwrap_any (aeskey kek : list N) : outcome (list N) :=
+(* the code before the repair: any length goes to keywrap.Unwrap *)
+Definition envelope_unwrap_any_orig (aeskey kek : list N) : outcome (list N) :=
   match expand_key_any kek with
   | None => Err                            (* aes.NewCipher: invalid key size *)
   | Some rks =>
@@ -43,18 +47,25 @@ Definition envelope_unwrap_any (aeskey kek : list N) : outcome (list N) :=
       if bytes_eqb iv default_iv then Ok (copy16 plain) else Err
   end.
 
+(* the working tree: a wrapped AES128 key is exactly 24 bytes *)
+Definition envelope_unwrap_any (aeskey kek : list N) : outcome (list N) :=
+  if negb (Nat.eqb (length aeskey) 24) then Err
+  else match expand_key_any kek with
+       | None => Err                       (* aes.NewCipher: invalid key size *)
+       | Some rks =>
+         let '(iv, plain) := unwrap_raw_rk rks aeskey in
+         if bytes_eqb iv default_iv then Ok (copy16 plain) else Err
+       end.
+
 (* the same function with the raw unwrap result given (None = key-size error): lets a caller that
    also needs [unwrap_raw_any kek aeskey] evaluate it once; equal to [envelope_unwrap_any] by
    EnvelopeAnyProofs.envelope_unwrap_any_from_raw *)
 Definition envelope_unwrap_from_raw (aeskey : list N) (r : option (list N * list N)) : outcome (list N) :=
-  match r with
-  | None => Err
-  | Some (iv, plain) =>
-    if Nat.ltb (length aeskey) 8 then Panic
-    else if Nat.ltb (length aeskey) 16 then
-      (if bytes_eqb (firstn 8 aeskey) default_iv then Panic else Err)
-    else if bytes_eqb iv default_iv then Ok (copy16 plain) else Err
-  end.
+  if negb (Nat.eqb (length aeskey) 24) then Err
+  else match r with
+       | None => Err
+       | Some (iv, plain) => if bytes_eqb iv default_iv then Ok (copy16 plain) else Err
+       end.
 
 (* RFC 3394 4.1 / 4.2 / 4.3 through the envelope, a KEK of 20 bytes, no label *)
 Example envelope_rfc3394 :
@@ -67,6 +78,7 @@ Example envelope_rfc3394_unwrap :
   (envelope_unwrap_any rfc3394_wrapped (seq_bytes 16), envelope_unwrap_any rfc3394_4_2 (seq_bytes 24),
    envelope_unwrap_any rfc3394_4_3 (seq_bytes 32), envelope_unwrap_any rfc3394_4_3 (seq_bytes 24),
    envelope_unwrap_any rfc3394_4_3 (seq_bytes 31), envelope_unwrap_any [1; 2; 3] (seq_bytes 32),
-   envelope_unwrap_any default_iv (seq_bytes 24))
-  = (Ok kd128, Ok kd128, Ok kd128, Err, Err, Panic, Panic).
+   envelope_unwrap_any default_iv (seq_bytes 24), envelope_unwrap_any rfc3394_4_4 (seq_bytes 24),
+   envelope_unwrap_any (rfc3394_4_2 ++ [0]) (seq_bytes 24))
+  = (Ok kd128, Ok kd128, Ok kd128, Err, Err, Err, Err, Err, Err).
 Proof. vm_compute. reflexivity. Qed.
